@@ -258,6 +258,8 @@ def gen_config(rng, **force):
     plant = force.get("planting") or default_planting(rng, crop, wfile)
     seasons = force.get("seasons") or rng.choice([1, 1, 2, 3])
     y0 = rng.randint(w0.year + 1, max(w0.year + 1, w1.year - seasons - 2))
+    if force.get("early"):                  # start in the first years of the weather file (room for decades after the window)
+        y0 = min(y0, w0.year + 1 + y0 % 3)
     pm, pd_ = int(plant[:2]), int(plant[3:])
     start_mode = force.get("start_mode") or rng.choice(["at", "at", "before", "after"])
     pdate = pd.Timestamp(year=y0, month=pm, day=pd_)
